@@ -9,15 +9,15 @@ verus! {
 //@include shims/std_option.rs
 pub const AUTH_TOKEN_GRACE_WINDOW: Duration = Duration { secs: @@constexpr:AUTH_TOKEN_GRACE_WINDOW:Duration::from_secs\((.*)\)@@, nanos: 0 };
 pub enum OperationError { Other }
-// time::OffsetDateTime + Duration: only compared afterwards; no range precondition here (the plugin's OAuth2 clean-up is not the
-// claimed half of C36)
+// time::OffsetDateTime + Duration: the instant that many nanoseconds later (time's documented meaning; ASSUMED, with no range
+// precondition here: time panics on overflow of its year range, it never wraps)
 impl vstd::std_specs::ops::AddSpecImpl<Duration> for OffsetDateTime {
-    open spec fn obeys_add_spec() -> bool { false }
+    open spec fn obeys_add_spec() -> bool { true }
     open spec fn add_req(self, rhs: Duration) -> bool { true }
-    open spec fn add_spec(self, rhs: Duration) -> OffsetDateTime { arbitrary() }
+    open spec fn add_spec(self, rhs: Duration) -> OffsetDateTime { OffsetDateTime { unix_ns: (self.unix_ns + rhs.ns()) as i128 } }
 }
 impl core::ops::Add<Duration> for OffsetDateTime { type Output = OffsetDateTime;
-    #[verifier::external_body] fn add(self, rhs: Duration) -> (r: OffsetDateTime) { unimplemented!() } }
+    #[verifier::external_body] fn add(self, rhs: Duration) -> (r: OffsetDateTime) ensures r.unix_ns == self.unix_ns + rhs.ns() { unimplemented!() } }
 pub enum Attribute { PrimaryCredential, PassKeys, AttestedPasskeys, OAuth2AccountCredentialUuid, UserAuthTokenSession, OAuth2Session, Other }
 pub struct Cid { pub ts: Duration, pub s_uuid: Uuid }
 impl Cid { #[verifier::external_body] pub fn clone(&self) -> (r: Cid) ensures r == *self { unimplemented!() } }
@@ -67,7 +67,14 @@ impl<V, S> Entry<V, S> {
             a is UserAuthTokenSession ==> (final(self).oauth2() == old(self).oauth2() && (old(self).sessions() matches Some(m) ==> (final(self).sessions() matches Some(m2) && m2.dom() == m.dom()
                 && forall|id: Uuid| #[trigger] m.contains_key(id) ==> (if values@.contains(PartialValue::Refer(id)) && !(m[id].state is RevokedAt) { m2[id].state is RevokedAt && m2[id].cred_id == m[id].cred_id } else { m2[id] == m[id] })))),
             a is UserAuthTokenSession ==> (old(self).sessions() is None ==> final(self).sessions() is None),
-            a is OAuth2Session ==> final(self).sessions() == old(self).sessions() { unimplemented!() }
+            a is OAuth2Session ==> final(self).sessions() == old(self).sessions(),
+            // for the OAuth2 session attribute the value set is ValueSetOauth2Session (valueset/session.rs, remove): a recorded session named
+            // by Refer(id) is RevokedAt afterwards, its parent and issue time unchanged; any other session is unchanged or (the rs_uuid
+            // branch of that function) revoked; no session appears or disappears (ASSUMED, read off that function)
+            a is OAuth2Session ==> (old(self).oauth2() matches Some(m) ==> (final(self).oauth2() matches Some(m2) && m2.dom() == m.dom()
+                && forall|id: Uuid| #[trigger] m.contains_key(id) ==> (if values@.contains(PartialValue::Refer(id)) { m2[id].state is RevokedAt && m2[id].parent == m[id].parent && m2[id].issued_at == m[id].issued_at }
+                    else { m2[id] == m[id] || (m2[id].state is RevokedAt && m2[id].parent == m[id].parent && m2[id].issued_at == m[id].issued_at) }))),
+            a is OAuth2Session ==> (old(self).oauth2() is None ==> final(self).oauth2() is None) { unimplemented!() }
 }
 // what the three filter_map closures select
 pub open spec fn inval(creds: Set<Uuid>, id: Uuid, s: Session) -> Option<PartialValue> {
@@ -76,10 +83,30 @@ pub open spec fn inval(creds: Set<Uuid>, id: Uuid, s: Session) -> Option<Partial
 pub open spec fn expired_pv(now: OffsetDateTime, id: Uuid, s: Session) -> Option<PartialValue> {
     if s.state matches SessionState::ExpiresAt(exp) && exp.unix_ns <= now.unix_ns { Some(PartialValue::Refer(id)) } else { None }
 }
-// the OAuth2 clean-up pipeline is left unspecified (its effect is consumed by check_oauth2_account_uuid_valid, unit oauth2_account_valid)
+// the OAuth2 clean-up pipeline `map.iter().filter_map(f).collect()`: stated in ONE direction only (std documentation: every Some(..)
+// the closure returns for a pair of the map is collected). `due` says for which pairs the statement of C36 demands a result; the
+// closure's CHECKED contract must return Some(Refer(id)) for those. What else the closure selects (expired sessions) is left open.
 impl<V> BTreeMap<Uuid, V> {
-    #[verifier::external_body] pub fn kvx_filter_map_unspec<'a, B, F: Fn((&'a Uuid, &'a V)) -> Option<B>>(&'a self, f: F) -> (r: KvxCollected<B>)
-        requires forall|k: &'a Uuid, v: &'a V| #[trigger] f.requires(((k, v),)) { unimplemented!() }
+    #[verifier::external_body] pub fn kvx_filter_map_lb<'a, F: Fn((&'a Uuid, &'a V)) -> Option<PartialValue>>(&'a self, due: Ghost<spec_fn(V) -> bool>, f: F) -> (r: KvxCollected<PartialValue>)
+        requires forall|k: &'a Uuid, v: &'a V| #[trigger] f.requires(((k, v),)),
+                 forall|k: &'a Uuid, v: &'a V, o: Option<PartialValue>| #[trigger] f.ensures(((k, v),), o) && due@(*v) ==> o == Some(PartialValue::Refer(*k)),
+        ensures forall|k: Uuid| #[trigger] self@.contains_key(k) && due@(self@[k]) ==> r.outs().contains(PartialValue::Refer(k)) { unimplemented!() }
+}
+pub open spec fn opt_map_view<V>(o: Option<&BTreeMap<Uuid, V>>) -> Option<Map<Uuid, V>> { match o { Some(m) => Some(m@), None => None } }
+// ---- statement of C36, second half ----
+// the parent login session `p` is present in the account's session table and not revoked
+pub open spec fn parent_live(sess: Option<Map<Uuid, Session>>, p: Uuid) -> bool {
+    sess matches Some(m) && m.contains_key(p) && !(m[p].state is RevokedAt)
+}
+// "an OAuth2 session whose parent login session is revoked or missing stops being usable once the grace window has passed":
+// such a session, if not already revoked, is due for revocation at `now`
+pub open spec fn o2_due(sess: Option<Map<Uuid, Session>>, now: OffsetDateTime, s: Oauth2Session) -> bool {
+    !(s.state is RevokedAt) && s.parent is Some && !parent_live(sess, s.parent->Some_0)
+        && s.issued_at.unix_ns + AUTH_TOKEN_GRACE_WINDOW.ns() < now.unix_ns   // strictly past: the statement leaves the boundary instant open
+}
+// after the plugin step no recorded OAuth2 session is due
+pub open spec fn no_orphan_oauth2<V, S>(e: &Entry<V, S>, now: OffsetDateTime) -> bool {
+    e.oauth2() matches Some(m) ==> forall|id: Uuid| #[trigger] m.contains_key(id) ==> !o2_due(e.sessions(), now, m[id])
 }
 // ---- statement of C36, first half ----
 // "every login session issued with [a removed] credential is revoked in the same change": after the plugin step no recorded login
@@ -92,9 +119,13 @@ pub open spec fn no_orphan_sessions<V, S>(e: &Entry<V, S>) -> bool {
 // the step's contract is the one proved for session_step above
 #[verifier::external_body] pub fn kvx_try_for_each_session<T>(cand: &mut [Entry<EntryInvalid, T>], now: OffsetDateTime) -> (r: Result<(), OperationError>)
     ensures final(cand)@.len() == old(cand)@.len(),
-            r is Ok ==> forall|i: int| 0 <= i < final(cand)@.len() ==> no_orphan_sessions(&#[trigger] final(cand)@[i]) { unimplemented!() }
+            r is Ok ==> forall|i: int| 0 <= i < final(cand)@.len() ==> no_orphan_sessions(&#[trigger] final(cand)@[i]),
+            r is Ok ==> forall|i: int| 0 <= i < final(cand)@.len() ==> no_orphan_oauth2(&#[trigger] final(cand)@[i], now) { unimplemented!() }
 pub struct QueryServerWriteTransaction { pub o: u8 }
-impl QueryServerWriteTransaction { #[verifier::external_body] pub fn get_curtime(&self) -> (r: Duration) { unimplemented!() } }
+impl QueryServerWriteTransaction { pub uninterp spec fn curtime_spec(&self) -> Duration;
+    #[verifier::external_body] pub fn get_curtime(&self) -> (r: Duration) ensures r == self.curtime_spec() { unimplemented!() } }
+// the transaction's time as an instant: UNIX_EPOCH + get_curtime()
+pub open spec fn now_of(d: Duration) -> OffsetDateTime { OffsetDateTime { unix_ns: d.ns() as i128 } }
 impl OffsetDateTime { pub const UNIX_EPOCH: OffsetDateTime = OffsetDateTime { unix_ns: 0 }; }
 pub struct SessionConsistency;
 impl SessionConsistency {
